@@ -835,6 +835,12 @@ func (e *SpecEnv) call(n *ECall) (tv, error) {
 				return tv{t: fmt.Sprintf("(ite (= %s 0) 0 (select %s %s))", a.t, e.heap(card), a.t), ty: tInt}, nil
 			case *types.Array:
 				return tv{t: fmt.Sprint(u.Len()), ty: tInt}, nil
+			case *types.Chan:
+				if id.Name == "cap" {
+					// capacity of a channel: fixed when it is made
+					d.chanCapDecl()
+					return tv{t: fmt.Sprintf("(ite (= %s 0) 0 (select %s %s))", a.t, e.heap("$chancap"), a.t), ty: tInt}, nil
+				}
 			}
 			return tv{}, fmt.Errorf("len of %s", a.ty)
 		case "contains", "hasPrefix", "hasSuffix", "concat", "itoa", "atoi", "indexOf", "abs", "replaceAll":
